@@ -6,6 +6,18 @@ props = [json.loads(l) for l in open(os.path.join(V, "properties.jsonl"))]
 
 # id -> (category, technique, level text, level note, design ref)
 CLAIMED = {
+ "C01": ("translation_validation", "runtime differential oracle: independent reference semantics + independent CBOR/Plutus-Data decoder vs the real parse/analyse/lower/apply/reduce/compile pipeline, plus layout metamorphic relation",
+         "Every generated program of the core fragment is translated by the real pipeline and the emitted transaction is validated field by field (inputs, ordered outputs incl. address/lovelace/assets/inline datum, mint, validity, signers, references, collateral, metadata, fee, network id) against a denotation computed by an independently written big-step semantics over the generator's own syntax tree; 2-3 random whitespace/comment layouts must lower to the same canonical IR. Held = no disagreement on any generated (program, argument vector, UTxO assignment, fee, network).",
+         "trusts the harness' reference semantics (self-tested on hand-computed cases at start-up), its CBOR/Plutus-Data reader and the generator's adherence to the analyzer's name-resolution rules; UTxOs are assigned rather than selected; sampled, not exhaustive",
+         "DESIGN.md section 3 C01"),
+ "C02": ("exploration", "runtime monitor: BigInt reference denotation with ledger-range table on boundary-valued arguments; conservation (in + mint = out + fee) checker on decoded transactions",
+         "Programs (half in balanced form) are run with boundary-valued integer arguments and under-funded UTxOs; whenever the pipeline returns Ok every numeric field must fit its ledger type and equal the exact value, and balanced templates must conserve value per asset class on the decoded bytes; a panic is reported as panic-instead-of-error. Held = no silent wrap/truncate/drop outside the listed known findings.",
+         "release profile so that wraps are silent (checked profile in a second phase); Err results are always acceptable; ranges per DESIGN appendix B",
+         "DESIGN.md section 3 C02"),
+ "C11": ("exploration", "runtime monitor: canonical-form round-trip oracle over random IR trees and lowered programs; hostile-bytes totality monitor with panic hook, signal and watchdog observers",
+         "Random IR trees covering every Expression/Param/BuiltInOp/CompilerOp/Coerce variant, all lowered example and generated programs are encoded and decoded and compared in canonical form (plus find_params/find_queries and the compiled transaction after identical application); 12 kinds of hostile byte strings and a list of version strings must yield Ok/Err without panic, abort or hang. Held = no difference and no crash on anything generated.",
+         "equality is equality of the canonicalised Serialize output; a field hidden from Serialize would be invisible; hang = wall-clock watchdog reproduced alone with 3x budget",
+         "DESIGN.md section 3 C11"),
  "C15": ("exploration", "runtime monitor: algebraic-law oracle + BigInt-style reference map over exhaustive small space and random values",
          "Every pair (and, for associativity, triple) of representations of values over 3 asset classes with amounts in -2..2 is enumerated completely and checked against the group laws with the code's own ==, against a reference map, and against the definitions of the predicates; random values extend this to the i128 range and arbitrary class names. Held = no law failed on any enumerated or sampled execution.",
          "trusts the harness' reference arithmetic (checked i128 over a BTreeMap) and ciborium for building values with explicit zero entries; classes in non-normal form (empty policy / empty name given directly to from_class_and_amount) are only fed through the normalising constructors",
